@@ -658,7 +658,7 @@ def oracle(c):
         if any(rank[x[0]] is None for x in c["pts"]):
             return SKIP
         if any(not (0 <= x[1] < sizes[x[0]]) for x in c["pts"]):
-            return {"err": "raised"} if all(x[1] >= 0 for x in c["pts"]) else SKIP
+            return {"err": "raised"}      # beyond the chromosome end OR negative (would land on the previous chromosome)
         return {"g": [sum(sizes[i] for i in incl if i < x[0]) + x[1] for x in c["pts"]]}
     if op == "g2l":
         tot = sum(sizes[i] for i in incl)
@@ -698,8 +698,10 @@ def oracle(c):
         L = c["L"]
         return {"iv": [[rank[x[0]], x[1], min(x[1] + L, sizes[x[0]])] if x[3] else [rank[x[0]], max(x[2] - L, 0), x[2]] for x in kept]}
     if not inside:
-        if op == "merge" and path == "mem" and all(0 <= x[1] <= x[2] for x in kept):
-            return {"err": "raised"}      # an interval beyond its chromosome is not a valid input: it must not be merged silently
+        if op in ("merge", "pileup", "mask", "extract") and path == "mem":
+            # an entry reaching beyond its chromosome, with a NEGATIVE start (it would be counted on the previous
+            # chromosome) or with stop < start is not a valid input: it must be refused, not processed silently
+            return {"err": "raised"}
         return SKIP
     if op in ("pileup", "mask"):
         chroms = []
@@ -937,6 +939,10 @@ def _cases_main(tier, rng):            # created in the parent, before the worke
            "iv": [[0, 3, 5, True], [1, 0, 2, True]], "d": 0}
     yield {"op": "merge", "via": "genome", "names": ["chr1", "chr2"], "sizes": [5, 5], "filt": True,
            "iv": [[0, 1, 2, True], [1, 1, 2, True]], "d": 0}
+    for bop in ("pileup", "mask", "merge"):
+        for via in ("genome", "geometry"):
+            yield {"op": bop, "via": via, "names": ["a", "b"], "sizes": [3, 2], "filt": True, "iv": [[1, -1, 1, True]], "d": 0, "stranded": False}
+            yield {"op": bop, "via": via, "names": ["a", "b"], "sizes": [3, 2], "filt": True, "iv": [[0, 2, 1, True]], "d": 0, "stranded": False}
     yield from _boundary_merge_cases()
     for via in ("geometry", "genome"):
         yield {"op": "merge", "via": via, "names": ["chr1", "chr2"], "sizes": [5, 5], "filt": True,
@@ -958,6 +964,7 @@ def _cases_main(tier, rng):            # created in the parent, before the worke
                 for c in range(n):
                     if not ign[c]:
                         yield {"op": "l2g", "names": names, "sizes": sizes, "filt": filt, "pts": [[c, sizes[c]]]}
+                        yield {"op": "l2g", "names": names, "sizes": sizes, "filt": filt, "pts": [[c, -1]]}
     # 1a. chromosome-name lookup: genome names, names that are prefixes / extensions / permutations of them
     for pool in _NAME_POOLS:
         for n in (1, 2, 3, 4):
@@ -1014,6 +1021,21 @@ def _cases_main(tier, rng):            # created in the parent, before the worke
             ok, ig = _sorted_genome(iv, rank)
             merged_in = ok + ig if rng.random() < 0.5 else ig + ok
             yield dict(base, op="merge", via=via, iv=merged_in, d=rng.choice([0, 0, 1, 2]))
+            if ok and rng.random() < 0.5:
+                # a negative start (preferably on a chromosome that HAS a left neighbour) / a stop before the start
+                badz = [list(x) for x in ok]
+                cand = [j for j, x in enumerate(badz) if rank[x[0]] and rank[x[0]] > 0] or list(range(len(badz)))
+                j = rng.choice(cand)
+                if rng.random() < 0.7:
+                    badz[j][1] = -rng.choice([1, 1, 2])
+                    badz[j][2] = max(badz[j][2], rng.choice([0, 1]))
+                else:
+                    badz[j][1], badz[j][2] = min(badz[j][2] + 1, sizes[badz[j][0]] - 1), badz[j][1]
+                for bop in ("pileup", "mask", "merge"):
+                    yield dict(base, op=bop, via=via, iv=badz, d=0, stranded=False)
+                if via == "genome" and sum(sizes[i] for i in incl):
+                    vz = [[rng.choice([0, 1, 2]) for _ in range(s_)] for s_ in sizes]
+                    yield dict(base, op="extract", iv=badz, stranded=False, vals=vz)
             if len(ok) >= 2 and rng.random() < 0.5:
                 perm = rng.sample(ok, len(ok))                                 # not in genome order (maybe not contiguous)
                 yield dict(base, op="merge", via=via, iv=perm, d=rng.choice([0, 1]))
